@@ -54,6 +54,12 @@ def gen_case(src, **opts):
             if idx[name][0] == "service" and idx[name][1]["inD"] and src.bool(0.3):
                 drop = src.choice(idx[name][1]["inD"])
                 ins.append({"ctx": [e for e in base if e[0] != drop], "cls": "param-absent", "base": bi, "names": [drop]})
+            if idx[name][0] == "bkm" and len(idx[name][1]["params"]) >= 2 and src.bool(0.3):
+                # a knowledge model invoked by name with an input context that lacks one of its parameters (an earlier one more often than the
+                # last): that parameter is null, the others are bound to what was supplied
+                ps = [p for p, _ in idx[name][1]["params"]]
+                drop = src.choice(ps[:-1]) if src.bool(0.7) else ps[-1]
+                ins.append({"ctx": [e for e in base if e[0] != drop], "cls": "partial", "base": bi, "names": [drop]})
         targets.append({"name": name, "inputs": ins})
     return {"model": m, "xml": DG.to_xml(m), "names": names, "targets": targets}
 
@@ -184,7 +190,7 @@ def judge_model(ctx, case, resp):
             labels = [cls, form] + (["dangling-reference"] if c["dangling"] else [])
             f = None
             rc = ref_ctx(inp["ctx"])
-            if cls == "plain":
+            if cls in ("plain", "partial"):
                 st, want, fired = reference(m, name, rc)
                 if st == "unspecified":
                     labels.append("unspecified")
@@ -202,7 +208,7 @@ def judge_model(ctx, case, resp):
             else:
                 labels.append(describe_unasserted(m, idx, name, inp, rc, got))
                 show_case(labels[-1], case, name, inp, got)
-            ctx.note(key=[mh, name, inp["ctx"]], nontrivial=nt and cls in ("plain", "extra"), labels=labels,
+            ctx.note(key=[mh, name, inp["ctx"]], nontrivial=nt and cls in ("plain", "extra", "partial"), labels=labels,
                      sample={"model": case["xml"], "invocable": name, "input": inp["ctx"], "class": cls, "actual": val.show(got)} if nt else None)
             if f is not None and fail is None:
                 fail = f
